@@ -111,6 +111,18 @@ package agessh
 //@   ensures#validated i.decrypted != old(i.decrypted) ==> old(i.decrypted) == nil && $pkeqn == old($pkeqn) + 1 && $pkeqr && $ppcalls == old($ppcalls) + 1   [C19]
 //@   ensures#typednil i.decrypted != old(i.decrypted) ==> id(i.decrypted) != 0                                     [C19 C14]
 
+//@ func NewRSARecipient(pk) (r, err)
+//@   requires pk != nil
+//@   ensures#ok err == nil ==> r != nil && r.sshKey == pk                                                           [C14 C18]
+//@   ensures#nil err != nil ==> r == nil                                                                           [C14 C18]
+//@   fresh r when err == nil
+
+//@ func NewEd25519Recipient(pk) (r, err)
+//@   requires pk != nil
+//@   ensures#ok err == nil ==> r != nil && r.sshKey == pk                                                          [C14 C18]
+//@   ensures#nil err != nil ==> r == nil                                                                           [C14 C18]
+//@   fresh r when err == nil
+
 //@ func ParseRecipient(s) (r, err)
 //@   ensures#ok err == nil ==> r != nil                                                                            [C14 C18]
 //@   ensures#nil err != nil ==> r == nil                                                                           [C14 C18]
@@ -159,3 +171,10 @@ package agessh
 //@ func (*EncryptedSSHIdentity).Recipient(i) (r)
 //@   assumes#wf r != nil
 //@   modifies nothing
+
+// ---- C14: zero-annotation no-panic sweep of the key conversions
+//@ func ed25519PublicKeyToCurve25519(pk) (b, err)
+//@   ensures#nil err != nil ==> b == nil                                                                           [C14]
+
+//@ func ed25519PrivateKeyToCurve25519(pk) (b)
+//@   ensures#len len(b) == 32                                                                                      [C05 C14]
